@@ -303,6 +303,25 @@ fn key_of(s: &Sentence, book: &Book) -> u128 {
     ((a as u128) << 64) | h2.finish() as u128
 }
 
+/// Hidden-state invariant (through the verif-hooks snapshot): the sentence is linked to exactly
+/// the predictor the history says it should be linked to - none after any update, successful or
+/// failed ("the default sentence"), the last predictor otherwise.
+pub fn oracle_link(w: &World, op: &Op, book: &Book, s: &Sentence) -> Option<Found> {
+    let got = s.verif_state().predictor;
+    let want = book.link.map(|i| &*w.preds[i].p as *const Predictor as usize);
+    if got != want {
+        let name = |a: Option<usize>| match a {
+            None => "none".to_string(),
+            Some(x) => w.preds.iter().find(|p| &*p.p as *const Predictor as usize == x).map_or("an unknown predictor".to_string(), |p| p.name.to_string()),
+        };
+        return Some(Found {
+            sig: format!("hidden-link op={} got={} want={}", w.op_name(op), name(got), name(want)),
+            what: format!("after {} the sentence is internally linked to predictor [{}], the history says [{}]", w.op_name(op), name(got), name(want)),
+        });
+    }
+    None
+}
+
 pub fn history(nodes: &[Node], mut i: usize) -> Vec<Op> {
     let mut h = vec![];
     while i != 0 {
@@ -574,6 +593,9 @@ pub fn search(w: &World, mode: Mode, chk: &Check, max_states: usize) -> BfsResul
                     match mode {
                         Mode::C05 => {
                             founds.extend(oracle_c05(w, op, &res, &s, &before));
+                            if res.is_ok() {
+                                founds.extend(oracle_link(w, op, &nb, &s));
+                            }
                             // instrumented re-execution (C18): a panic of ANY operation matters
                             if let (Err(p), true) = (&res, c18_mode().is_some() && !World::is_update(op) && !matches!(op, Op::Reset(_))) {
                                 founds.push(Found { sig: format!("panic op={}", w.op_name(op)), what: format!("{} panicked: {p}", w.op_name(op)) });
@@ -661,6 +683,9 @@ pub fn replay_case(mode: Mode, case: &Value) -> Option<(String, String)> {
     let founds = match mode {
         Mode::C05 => {
             let mut f = oracle_c05(&w, last, &res, &s, &before);
+            if res.is_ok() {
+                f.extend(oracle_link(&w, last, &nb, &s));
+            }
             if let (Err(p), true) = (&res, c18_mode().is_some() && !World::is_update(last) && !matches!(last, Op::Reset(_))) {
                 f.push(Found { sig: format!("panic op={}", w.op_name(last)), what: format!("{} panicked: {p}", w.op_name(last)) });
             }
